@@ -83,7 +83,7 @@ def run(ctx):
     # 2. the real pipeline: every fault position of every small scenario
     binary = vlib.go_build_test(ctx, "execpipe")
     out = ctx.sub("enum")
-    env = {"VERIF_EP_MAXLEN": 3, "VERIF_EP_DEPTH": 1, "VERIF_EP_SEMS": "1,2", "VERIF_EP_CHUNK": 25000}
+    env = {"VERIF_EP_MAXLEN": 3, "VERIF_EP_DEPTH": 1, "VERIF_EP_SEMS": "1", "VERIF_EP_CHUNK": 30000}
     if not ctx.quick():
         env = {"VERIF_EP_MAXLEN": 4, "VERIF_EP_DEPTH": 2, "VERIF_EP_DEEPLEN": 3,
                "VERIF_EP_SEMS": "1,2", "VERIF_EP_CHUNK": 60000}
